@@ -867,7 +867,7 @@ pub fn def() -> PropDef {
         subs: || {
             vec![
                 Box::new(Sub::<Case> { name: "history", cases: |t| t.scale(15_000, 5), strategy, exec }),
-                Box::new(Sub::<GCase> { name: "compaction-gc", cases: |t| t.scale(4_000, 6), strategy: gstrategy, exec: exec_compaction }),
+                Box::new(Sub::<GCase> { name: "compaction-gc", cases: |t| t.scale(8_000, 5), strategy: gstrategy, exec: exec_compaction }),
                 Box::new(Sub::<SlowCase> { name: "slow-compaction", cases: |t| t.scale(16, 10), strategy: |_| (0u8..3, 0u8..2, 0u8..3, prop::collection::vec(any::<u16>(), 0..10)).prop_map(|(chunks, backend, slow, schedule)| SlowCase { chunks, backend, slow, schedule }).boxed(), exec: exec_slow }),
             ]
         },
